@@ -107,6 +107,9 @@ func (w *world) Ops() []seqx.Op {
 	ops = append(ops, op{Kind: "burst", N: 5}, op{Kind: "burst", N: 31}, op{Kind: "burst", N: 33})
 	if w.nops < 3 {
 		ops = append(ops, op{Kind: "burst", N: 255})
+		// a long outage: the stream moves forward by thousands of packets
+		// (still forwards modulo 2^16, possibly across the wrap)
+		ops = append(ops, op{Kind: "skip", N: 5000})
 	}
 	if w.nops < 1 && !core.Quick() {
 		ops = append(ops, op{Kind: "burst", N: 65536})
@@ -142,7 +145,18 @@ func (w *world) feed(p int64) *core.Violation {
 	inorder := p == w.highest+1
 	if p > w.highest {
 		// positions between become holes
-		for q := w.highest + 1; q < p; q++ {
+		// only holes near the newest packet are ever looked at again (the
+		// loss bitmap covers 32 packets)
+		q0 := w.highest + 1
+		if p-q0 > 64 {
+			q0 = p - 64
+			for q := range w.holeAge {
+				if q < q0 {
+					delete(w.holeAge, q)
+				}
+			}
+		}
+		for q := q0; q < p; q++ {
 			if w.highest >= 0 {
 				w.holeAge[q] = 0
 			}
@@ -551,8 +565,14 @@ func allConfigs() []cfgDesc {
 }
 
 func cfgFor(c cfgDesc) seqx.Config {
+	// every execution replays the pre-roll that establishes the rate regime
+	// (400 or 1300 packets): those configurations go one level less deep
+	d := core.Pick(5, 7)
+	if c.preroll > 0 {
+		d = core.Pick(4, 6)
+	}
 	return seqx.Config{Name: fmt.Sprintf("readloop/start%d/rate%d", c.start, c.preroll), Fresh: fresh(c.start, c.preroll),
-		MaxDepth: core.Pick(5, 7), Parallel: 1}
+		MaxDepth: d, Parallel: 1}
 }
 
 func main() {
@@ -570,7 +590,7 @@ func main() {
 		res.Assume("upstream NACKs triggered by a downstream receiver (GetPacket with nack=true -> nackWriter) are checked only for what the mechanism promises: cached numbers and numbers before the cut-off are not forwarded, packing loses nothing")
 		core.Finish(res, t0)
 	}
-	agg := core.Sub{Name: "readloop", Exhaustive: true, Bound: fmt.Sprintf("depth<=%d x %d configurations (start seqno x rate regime)", core.Pick(5, 7), len(allConfigs()))}
+	agg := core.Sub{Name: "readloop", Exhaustive: true, Bound: fmt.Sprintf("depth<=%d (low rate) / %d (rate regimes with a 400/1300-packet pre-roll) x %d configurations (start seqno x rate regime)", core.Pick(5, 7), core.Pick(4, 6), len(allConfigs()))}
 	job := 0
 	for _, c := range allConfigs() {
 		w0 := cfgFor(c).Fresh()
